@@ -258,3 +258,22 @@ Proof.
   destruct (step c s o) as [s1 x] eqn:E. specialize (IH s1). destruct (run c s1 r) as [s2 xs]. cbn [fst] in *.
   eapply ext_trans; [|exact IH]. pose proof (step_ext c s o) as H. now rewrite E in H.
 Qed.
+
+Definition scope_given (sc : option (list pystr)) : Prop := match sc with Some _ => True | None => False end.
+
+(* the token a successful mint appends *)
+Lemma mint_new s gi cls based sc mx mints e s' id :
+  mint s gi cls based sc mx mints e = Ok (s', id) ->
+  exists tn, tget id s' = Some tn /\ t_grant tn = gi /\ t_cls tn = cls /\ t_based tn = based /\ t_used tn = 0 /\
+             t_revoked tn = false /\ t_max tn = (match cls with Code => Some 1 | _ => mx end) /\
+             (scope_given sc -> Some (t_scope tn) = sc).
+Proof.
+  unfold mint. destruct (nth_error (grants s) gi) as [g|] eqn:Eg; [|discriminate].
+  destruct (grant_active (now s) g) eqn:Ea; cbn [negb]; [|discriminate].
+  match goal with |- context [bind ?x _] => destruct x as [[]| |]; cbn [bind]; try discriminate end.
+  intros H; inversion H; subst; clear H. unfold tget; cbn.
+  eexists. rewrite nth_error_app2; [|destruct based; rewrite ?len_upd; lia].
+  replace (length (toks s) - length (match based with Some b => upd_nth b (add_used 1) (toks s) | None => toks s end))%nat with O
+    by (destruct based; rewrite ?len_upd; lia).
+  cbn. repeat split; auto. intros Hsc. destruct sc; [reflexivity|contradiction].
+Qed.
